@@ -68,6 +68,10 @@ def gen(ctx):
     # the bundled transports themselves (every constructor): a stop requested while nothing arrives
     for kc in ("unix new", "unix skbuf", "unix skbufsz", "chan b"):
         yield Case("STOPX", kc, tags=("stop-real-transport",))
+    # the unix transport under datagrams from a peer WITHOUT a pathname (not attributable: failed reads): thousands back to back,
+    # and a steady trickle across the stop request
+    for kc in ("unixnoise burst", "unixnoise steady"):
+        yield Case("STOPX", kc, tags=("stop-real-transport-unnamed-peer",))
     for a in R.stop_from_callback_cases():
         yield Case("RUN", a, tags=("stop-from-callback",))
     # every cut point of scripted histories
